@@ -131,6 +131,22 @@ func (k *keyManagementContext) setOurCurrentDHKeys(priv secretKeyValue, pub *big
 	k.ourCurrentDHKeys.pub = setBigInt(k.ourCurrentDHKeys.pub, pub)
 }
 
+// counterIsFresh reports whether the counter of the message is above the last
+// one accepted for its key pair, without recording anything
+func (k *keyManagementContext) counterIsFresh(message dataMsg) error {
+	theirNextCounter := binary.BigEndian.Uint64(message.topHalfCtr[:])
+
+	for _, c := range k.counterHistory.counters {
+		if c.ourKeyID == message.recipientKeyID && c.theirKeyID == message.senderKeyID {
+			if theirNextCounter <= c.theirCounter {
+				return newOtrConflictError("counter regressed")
+			}
+		}
+	}
+
+	return nil
+}
+
 func (k *keyManagementContext) checkMessageCounter(message dataMsg) error {
 	counter := k.counterHistory.findCounterFor(message.recipientKeyID, message.senderKeyID)
 	theirNextCounter := binary.BigEndian.Uint64(message.topHalfCtr[:])
